@@ -101,6 +101,31 @@ func c05(c *Ctx) {
 	c.Before("open-seq/recover-does-both", rc, p.SuccessReturn, call("CheckpointNoLock"), 1, "every success exit of recover has checkpointed", "an un-checkpointed WAL is left for SQLite to replay differently")
 	c.ErrHandled("open-seq/recover-errors", rc, p.PlainCalls("litefs.(*DB).rollbackJournal", "litefs.(*DB).CheckpointNoLock"), nil, 2, "recover propagates both errors", "a failed rollback must stop recovery")
 
+	// ---- WAL/LTX reconciliation at open (syncWALToLTX): the decision table ----
+	{
+		sw := "litefs.(*DB).syncWALToLTX"
+		hd := `ltx\.\(\*Decoder\)\.Header\(.*\)`
+		common := []*Guard{
+			G(`\(litefs\.OS\.Open\(.*\)#1 == nil\)`, true), G(`\(ltx\.\(\*Decoder\)\.Verify\(.*\) == nil\)`, true),
+			G(`os\.IsNotExist\(litefs\.OS\.OpenFile\(.*\)#1\)`, false), G(`\(litefs\.OS\.OpenFile\(.*\)#1 == nil\)`, true),
+			G(`\(nil == os\.\(\*File\)\.Stat\(.*\)#1\)`, true),
+			G(`\(internal\.ReadFullAt\(.*\)#1 == io\.EOF\)`, false), G(`\(internal\.ReadFullAt\(.*\)#1 == io\.ErrUnexpectedEOF\)`, false), G(`\(internal\.ReadFullAt\(.*\)#1 == nil\)`, true),
+		}
+		saltEq1 := `\(encoding/binary\.\(bigEndian\)\.Uint32\(.*\[16:\]\) == ` + hd + `\.WALSalt1\)`
+		saltEq2 := `\(encoding/binary\.\(bigEndian\)\.Uint32\(.*\[20:\]\) == ` + hd + `\.WALSalt2\)`
+		rn := p.PlainCalls("litefs.OS.Rename")
+		c.OnlyGuards("wal-sync/stale-wal-set-aside", sw, rn, append(append([]*Guard{}, common...), G(saltEq1, false), G(saltEq1, true), G(saltEq2, false)), 1,
+			"a WAL whose salts differ from the newest LTX file's is set aside whenever the WAL exists and its header could be read - under no further condition (in particular also when the newest LTX carries no WAL position)", "after a journal-mode commit, import or snapshot the newest LTX has zero salts: a WAL with frames of an uncaptured transaction must not survive into the recovery checkpoint, or the database cannot be opened again")
+		c.GuardedPaths("wal-sync/set-aside-only-on-mismatch", sw, rn, [][]*Guard{{G(saltEq1, false), G(saltEq2, false)}}, 1, "... and only when a salt differs", "")
+		tr := p.PlainCalls("os.(*File).Truncate")
+		c.OnlyGuards("wal-sync/longer-wal-cut", sw, tr, append(append([]*Guard{}, common...), G(saltEq1, true), G(saltEq2, true),
+			G(`\(os\.FileInfo\.Size\(.*\) < `+hd+`\.WALOffset\)`, false), G(`\(\(`+hd+`\.WALOffset \+ `+hd+`\.WALSize\) < os\.FileInfo\.Size\(.*\)\)`, true)), 1,
+			"a matching WAL that is longer than WALOffset+WALSize of the newest LTX file is cut back to that size - under no further condition", "frames past the last captured transaction belong to a transaction without an LTX file")
+		c.ExpectAll("wal-sync/cut-size", c.CallArgs(sw, tr, 1), pat("(ltx.(*Decoder).Header(@@).WALOffset + ltx.(*Decoder).Header(@@).WALSize)"), 1, "the size cut to is WALOffset+WALSize", "")
+		c.EdgeReturns("wal-sync/short-wal-fails", sw, G(`\(os\.FileInfo\.Size\(.*\) < `+hd+`\.WALOffset\)`, true), `fmt\.Errorf\(.*`, 1, "a matching WAL shorter than the last captured transaction's offset is an error", "")
+		c.ErrHandled("wal-sync/ltx-verified", sw, p.PlainCalls("ltx.(*Decoder).Verify"), Any(rn, tr), 1, "the newest LTX file is verified before the WAL is touched", "")
+	}
+
 	c.rollbackFamily("rollback")
 	trunc := call("truncateDatabase")
 
